@@ -44,6 +44,7 @@ def dispatch (line : String) : String :=
   | "jsonenc" :: args => Driver.RenderD.handleJsonEnc args
   | "escape" :: args => Driver.RenderD.handleEscape args
   | "pretty" :: args => Driver.PrintD.handlePretty args
+  | "ignoretail" :: args => Driver.ParseWfD.handleIgnoreTail args
   | "cron" :: args => Driver.CronD.handle args
   | "sanitize" :: args => Driver.RenderD.handleSanitize args
   | "exproffsets" :: args => Driver.RenderD.handleExprOffsets args
